@@ -27,6 +27,10 @@ ASSUMPTIONS = [
 OPS = ["ret", ("T", 0), ("T", 1), ("T", 2), ("W", 0, True), ("S", 0), ("J", True), "I", "Sp"]
 # delays that are not binary fractions: now + (t - now) != t in floating point for many (now, t)
 OPS_F = ["ret", ("T", 0), ("T", 0.2), ("T", 0.7), ("W", 0, True), ("S", 0), "I"]
+# programs that crash (an unhandled failure ends run() with that exception) and a driver that carries on afterwards
+OPS_C = ["ret", "raise", ("T", 0), ("T", 1), ("W", 0, True), ("W", 0, False), ("S", 0), ("F", 0), ("J", False)]
+# exception objects as the VALUE of a successful event
+OPS_X = ["ret", ("T", 0), ("T", 1), ("W", 0, True), ("SX", 0), ("S", 0), ("J", True)]
 NSCEN = 9
 
 
@@ -36,6 +40,8 @@ def plan(tier, seed):
     if not quick:
         cfgs = [dict(kind="k", depth=5, S=2), dict(kind="k", depth=4, S=3)]
     cfgs.append(dict(kind="k", depth=3 if quick else 4, S=2 if quick else 3, ops="F", off=0.1))
+    cfgs.append(dict(kind="k", depth=4, S=2, ops="X"))
+    cfgs.append(dict(kind="crashy", depth=4 if quick else 5, S=2))
     for sc in range(NSCEN):
         cfgs.append(dict(kind="net", scenario=sc, S=2 if quick else 3))
     return {"cfgs": cfgs, "budget": None,
@@ -55,11 +61,88 @@ class Replayer:
         return v if v < n else 0
 
 
+def drive_on(k, stops, crashes):
+    """executes the stop plan and then run() until nothing is left; a run() that ends with an application exception is
+    recorded and the driver carries on (a stale stop left behind by an aborted run only makes run() return once more)"""
+    env = k.env
+
+    def attempt(fn):
+        try:
+            fn()
+        except (KC.Err, KC.Abort) as e:
+            crashes.append((env.now, type(e).__name__, e.args))
+    for st in stops:
+        if st[0] == "t":
+            if st[1] > env.now:
+                attempt(lambda: env.run(until=st[1]))
+        else:
+            target = k.events[st[1]]
+            if not target.processed:
+                try:
+                    attempt(lambda: env.run(until=target))
+                except RuntimeError:
+                    pass        # the schedule ran dry before the event was triggered: reported as such, nothing lost
+    n = 0
+    while env.peek() < INF and n < 1000:
+        n += 1
+        attempt(env.run)
+
+
+def exec_crashy(ch, cfg):
+    res = Result()
+    base = KC.K(ch, OPS_C, cfg["depth"], reaction=False)
+    prog_len = None
+    bcr = []
+    try:
+        drive_on(base, [], bcr)
+    except BaseException as e:  # noqa
+        res.digest = ("base-raised", type(e).__name__)
+        res.ev("C03.split")
+        res.bad("C03.split", "carrying-on-after-a-crash-raised-%s" % type(e).__name__, repr(e)[:100])
+        return res
+    prog = list(ch.choices)
+    blog = [x[2:] for x in base.log]
+    dues = sorted(set(t[1] for t in base.trig if t[1] > 0))
+    menu = [("t", t) for t in dues] + [("t", t + 0.25) for t in dues]
+    if base.outcome.get(("ev", 0), (False,))[0]:
+        menu.append(("ev", 0))       # (stopping on an event that fails or is never triggered is outside the statement)
+    stops = []
+    for i in range(cfg["S"]):
+        c = ch.choose(len(menu) + 1, lambda c: "stop %s" % ("none" if c == 0 else (menu[c - 1],)), free=True)
+        if c == 0:
+            break
+        stops.append(menu[c - 1])
+    res.digest = (tuple(prog), tuple(stops))
+    if not stops:
+        return res
+    res.nontrivial = bool(bcr)
+    k = KC.K(Replayer(prog), OPS_C, cfg["depth"], reaction=False)
+    cr = []
+    res.ev("C03.split")
+    try:
+        drive_on(k, stops, cr)
+    except BaseException as e:  # noqa
+        res.bad("C03.split", "split-run-raised-%s" % type(e).__name__, "plan %r: %r" % (stops, e))
+        return res
+    got = [x[2:] for x in k.log]
+    if got != blog or cr != bcr:
+        i = 0
+        while i < min(len(got), len(blog)) and got[i] == blog[i]:
+            i += 1
+        sh = "process-lost" if len(got) < len(blog) else ("process-duplicated" if len(got) > len(blog) else ("trace-reordered" if got != blog else "crashes-differ"))
+        res.bad("C03.split", "%s-after-%s(crashing-program)" % (sh, "+".join(sorted(set(s[0] for s in stops)))),
+                "plan %r: first difference at entry %d: split %r vs single %r; crashes %r vs %r" % (
+                    stops, i, got[i] if i < len(got) else None, blog[i] if i < len(blog) else None, cr, bcr))
+    return res
+
+
 def execute(ch, cfg):
     if cfg["kind"] == "net":
         return exec_net(ch, cfg)
+    if cfg["kind"] == "crashy":
+        return exec_crashy(ch, cfg)
     res = Result()
-    ops = OPS_F if cfg.get("ops") == "F" else OPS
+    ops = OPS_F if cfg.get("ops") == "F" else (OPS_X if cfg.get("ops") == "X" else OPS)
     off = cfg.get("off", 0.25)
     base = KC.K(ch, ops, cfg["depth"], reaction=False).run()
     prog = list(ch.choices)
